@@ -399,6 +399,11 @@ func cmdCheck(args []string) int {
 		}
 		small := check.Shrink(s, f.Seed, f.Program, sig, 40*time.Second)
 		res := s.Exec(f.Seed, small)
+		if len(res.Trace) > 0 {
+			// record the schedule that was taken: the replay follows it choice by choice
+			small.Schedule = res.Trace
+			res = s.Exec(f.Seed, small)
+		}
 		var hit *check.Replay
 		for _, v := range res.Viol {
 			if v.Sig == sig {
